@@ -83,7 +83,7 @@ func ShapeFieldTypes() []reflect.Type {
 func StructShape(t *rapid.T) Shape {
 	s := Shape{}
 	types := ShapeFieldTypes()
-	jsonPool := []string{"a", "b", "c", "a-b", "id", ""}
+	jsonPool := []string{"a", "b", "c", "a-b", "id", "", "A", "B", "a_b", "Id", "F1", "f1"}
 
 	// ID field.
 	idForm := rapid.SampledFrom([]string{
